@@ -44,6 +44,18 @@ def mask_msg(p):
     return p
 
 
+def canon_msg(p):
+    """twin of JWire.canonMsg: members of a message object sorted by name (by code point), also
+    inside its object-valued members - JSON objects are unordered"""
+    if isinstance(p, dict):
+        out = {}
+        for k in sorted(p):
+            v = p[k]
+            out[k] = {k2: v[k2] for k2 in sorted(v)} if isinstance(v, dict) else v
+        return out
+    return p
+
+
 def reply_line(mod, error_message):
     if error_message is None:
         return '-'
@@ -52,8 +64,8 @@ def reply_line(mod, error_message):
     except Exception as e:       # not decodable: shown as such, the oracle judges it
         return f'!undecodable:{type(e).__name__}'
     if isinstance(p, list):
-        return E([mask_msg(x) for x in p])
-    return E(mask_msg(p))
+        return E([canon_msg(mask_msg(x)) for x in p])
+    return E(canon_msg(mask_msg(p)))
 
 
 def exc_line(mod, e):
